@@ -115,7 +115,9 @@ Print Assumptions close_begins.
 (* Every run of the composed model is a run of model/Timers.v with the same per-call results and the same connection
    state: the 11 theorems above hold of it (timer_defined: for the sources it computes). *)
 Theorem full_refines_timers : forall reset client o ops, ffirst_op client o ->
-  exists o' ops', first_op client o' /    fst (frun reset (full_init client) (o :: ops)) = fst (run (conn_init client) (o' :: ops')) /    f_c (snd (frun reset (full_init client) (o :: ops))) = snd (run (conn_init client) (o' :: ops')).
+  exists o' ops', first_op client o' /\
+    fst (frun reset (full_init client) (o :: ops)) = fst (run (conn_init client) (o' :: ops')) /\
+    f_c (snd (frun reset (full_init client) (o :: ops))) = snd (run (conn_init client) (o' :: ops')).
 Proof. exact full_refines_timers_lemma. Qed.
 Print Assumptions full_refines_timers.
 
@@ -130,8 +132,13 @@ Print Assumptions full_refines_timers.
 Theorem timer_sources_sound : forall reset client o ops ptod, ffirst_op client o ->
   let f := snd (frun reset (full_init client) (o :: ops)) in
   c_state (f_c f) <> TERMINATED ->
-  exists d, c_close_at (f_c f) = Some d /    (is_end (c_state (f_c f)) = true -> fst (fget_timer ptod f) = Ok (Some d)) /    (is_end (c_state (f_c f)) = false ->
-       fst (fget_timer ptod f) = Ok (Some (fst (timer_src ptod d f))) /       src_legit ptod d f (fst (timer_src ptod d f)) (snd (timer_src ptod d f)) /       lower_bound ptod d f (fst (timer_src ptod d f))) /    Forall sp_ok (f_sp f).
+  exists d, c_close_at (f_c f) = Some d /\
+    (is_end (c_state (f_c f)) = true -> fst (fget_timer ptod f) = Ok (Some d)) /\
+    (is_end (c_state (f_c f)) = false ->
+       fst (fget_timer ptod f) = Ok (Some (fst (timer_src ptod d f))) /\
+       src_legit ptod d f (fst (timer_src ptod d f)) (snd (timer_src ptod d f)) /\
+       lower_bound ptod d f (fst (timer_src ptod d f))) /\
+    Forall sp_ok (f_sp f).
 Proof. exact timer_sources_sound_lemma. Qed.
 Print Assumptions timer_sources_sound.
 
@@ -159,8 +166,13 @@ Print Assumptions timer_progress_partial.
 Theorem timer_progress_pacing_refuted :
   exists ops ptod d v,
     let f := snd (frun false (full_init false) ops) in
-    (exists o t, ops = o :: t /\ ffirst_op false o) /    c_close_at (f_c f) = Some d /\ c_state (f_c f) = CONNECTED /    timer_src ptod d f = (v, SrcPacing) /\ pacer_sane v stale_send /    fst (fstep false f (FGetTimer ptod)) = RTimer (Some v) /    let f0 := snd (fstep false f (FGetTimer ptod)) in
-    fst (frun false f0 (stale_loop ptod v)) = [RUnit; RSent SNone; RTimer (Some v)] /    forall n, spin false n (stale_loop ptod v) f0 = f0.
+    (exists o t, ops = o :: t /\ ffirst_op false o) /\
+    c_close_at (f_c f) = Some d /\ c_state (f_c f) = CONNECTED /\
+    timer_src ptod d f = (v, SrcPacing) /\ pacer_sane v stale_send /\
+    fst (fstep false f (FGetTimer ptod)) = RTimer (Some v) /\
+    let f0 := snd (fstep false f (FGetTimer ptod)) in
+    fst (frun false f0 (stale_loop ptod v)) = [RUnit; RSent SNone; RTimer (Some v)] /\
+    forall n, spin false n (stale_loop ptod v) f0 = f0.
 Proof. exact timer_progress_pacing_refuted_lemma. Qed.
 Print Assumptions timer_progress_pacing_refuted.
 
@@ -169,6 +181,8 @@ Print Assumptions timer_progress_pacing_refuted.
 Theorem timer_progress_pacing_fixed :
   let f := snd (frun true (full_init false) stale_history) in
   let f0 := snd (fstep true f (FGetTimer 300)) in
-  timer_src 300 1010 f = (11, SrcPacing) /  f_pacing (snd (frun true f0 (stale_loop 300 11))) = None /  fst (frun true f0 (stale_loop 300 11)) = [RUnit; RSent SNone; RTimer (Some 300)].
+  timer_src 300 1010 f = (11, SrcPacing) /\
+  f_pacing (snd (frun true f0 (stale_loop 300 11))) = None /\
+  fst (frun true f0 (stale_loop 300 11)) = [RUnit; RSent SNone; RTimer (Some 300)].
 Proof. exact stale_history_fixed. Qed.
 Print Assumptions timer_progress_pacing_fixed.
